@@ -40,6 +40,17 @@ Definition from_view (v : view) (b : buf) : res (toodee N) :=
 Definition td_eqb (a b : toodee N) : bool :=
   list_N_eqb (data a) (data b) && (num_rows a =? num_rows b) && (num_cols a =? num_cols b).
 
+(** the same derived PartialEq when some cells ([nan i] = true for cell i of either
+    operand) hold a value that is not equal to itself *)
+Fixpoint cells_eqb_partial (nan : nat -> bool) (i : nat) (a b : list N) : bool :=
+  match a, b with
+  | [], [] => true
+  | x :: a', y :: b' => (x =? y)%N && negb (nan i) && cells_eqb_partial nan (S i) a' b'
+  | _, _ => false
+  end.
+Definition td_eqb_partial (nan : nat -> bool) (a b : toodee N) : bool :=
+  cells_eqb_partial nan 0 (data a) (data b) && (num_rows a =? num_rows b) && (num_cols a =? num_cols b).
+
 Definition enc_td (t : toodee N) : list N :=
   [1%N; N.of_nat (num_cols t); N.of_nat (num_rows t)] ++ e_Nlist (data t).
 
@@ -73,6 +84,16 @@ Definition conv_model (inp : list N) : list N :=
             let b := mkTD d2 r2 c2 in
             let e := if td_eqb a b then 1%N else 0%N in
             [e; e; 1%N; 1%N]
+        end
+      else if (sub =? 3)%N then
+        (* elements with a non-reflexive equality (f64): cell [nan - 1] holds a NaN.
+           a == a (the same object), a != a, a == a.clone(), a == a rebuilt from its cells *)
+        match run_parser (c <~ p_nat ;; r <~ p_nat ;; nan <~ p_nat ;; p_ret (c, r, nan)) rest with
+        | None => BAD_CASE
+        | Some (c, r, nan) =>
+            let a := mkTD (iota (c * r)) r c in
+            let e := if td_eqb_partial (fun i => Nat.eqb (S i) nan) a a then 1%N else 0%N in
+            [e; (1 - e)%N; e; e]
         end
       else
         match run_parser (via <~ p_nat ;; c <~ p_N ;; r <~ p_N ;; l <~ p_nat ;; tr <~ p_bool ;;
